@@ -631,7 +631,12 @@ def dict_resolver(env):
                 raise SelectorError(f"Could not resolve '{start}'.")
 
             for part in parts:
-                curr = getattr(curr, part)
+                try:
+                    curr = getattr(curr, part)
+                except AttributeError:
+                    raise SelectorError(
+                        f"Could not resolve '{x}': no attribute '{part}'."
+                    )
 
         return getattr(curr, "__ptera__", curr)
 
